@@ -168,3 +168,25 @@ Definition leak_step (s : lstate) (e : aev) : option lstate :=
 
 (* [calls]: the nonces of the operations that are calls (the others are notifications) *)
 Definition c11_pred (calls : list Z) (tr : list aev) : bool := accepts leak_step (mkL [] [] false calls) tr.
+
+(* ---------- C07 (lifecycle part): the three observers agree, stopping is irreversible, the error is fixed ----------
+   State: the error class seen once the transport was observed stopped (None while it is still open). *)
+Definition lifecycle_step (seen : option Z) (e : aev) : option (option Z) :=
+  match e with
+  | AObserve done connected err =>
+      if done then
+        if connected || (err =? 0) then None
+        else match seen with
+             | None => Some (Some err)
+             | Some e0 => if e0 =? err then Some seen else None
+             end
+      else
+        match seen with
+        | Some _ => None                       (* it was stopped before: stopping is irreversible *)
+        | None => if connected && (err =? 0) then Some None else None
+        end
+  | AWatchViolation => None
+  | _ => Some seen
+  end.
+
+Definition c07_lifecycle (tr : list aev) : bool := accepts lifecycle_step None tr.
